@@ -263,6 +263,26 @@ def run(ctx: common.Ctx):
       add(f'filters F diffstep {fbits(dt)} {fbits(tau)} {order} {fbits(radius)} {lss}',
           'horizontal_diffusion_step_filter scaling', inp,
           flat(ti.horizontal_diffusion_step_filter(grid, dt, tau, order)(None, np.ones(L))))
+    # array-valued time scales (per level / per sample): every slice must be the scalar step filter
+    taus = tau * rng.uniform(0.3, 3.0, T) * np.array([1.0, 7.0, 0.05])[:T]
+    tau_arr = np.expand_dims(taus, exp_dims)
+    inp = dict(ginfo, dt=dt, tau=taus.tolist(), order=order, cutoff=c, leaf_shape=list(xa.shape))
+    ctx.dist['array-tau-step-filters'] += 1
+    with ctx.impl('array-tau-step-filter-exception', inp):
+      outd = np.asarray(ti.horizontal_diffusion_step_filter(grid, dt, tau_arr, order)(None, xa))
+      oute = np.asarray(ti.exponential_step_filter(grid, dt, tau_arr, p, c)(None, xa))
+      for t in range(T):
+        refd = np.asarray(ti.horizontal_diffusion_step_filter(grid, dt, float(taus[t]), order)(None, xa[t]))
+        refe = np.asarray(ti.exponential_step_filter(grid, dt, float(taus[t]), p, c)(None, xa[t]))
+        ctx.expect(dinoutil.relerr(outd[t], refd) < TOL, 'array-slicewise-diffusion-step',
+                   f'horizontal_diffusion_step_filter with array-valued tau differs from the scalar-tau '
+                   f'filter on slice {t} (tau={taus[t]:.4g})', inp)
+        ctx.expect(dinoutil.relerr(oute[t], refe) < TOL, 'array-slicewise-exponential-step',
+                   f'exponential_step_filter with array-valued tau differs from the scalar-tau filter on '
+                   f'slice {t} (tau={taus[t]:.4g})', inp)
+        add(f'filters F diffstepf {fbits(dt)} {fbits(float(taus[t]))} {order} {fbits(radius)} {lss} '
+            f'{ivec(xa[t].shape)} {fvec(xa[t].ravel())} {fvec(xa[t].ravel())}',
+            'horizontal_diffusion_step_filter[array tau, slice]', dict(inp, slice=t), flat(outd[t]))
     if ls[-1] == 0 and L > 1:   # padded: the old normalisation divides by zero (negative witness)
       add(f'filters F diffstep_old {fbits(dt)} {fbits(tau)} {order} {fbits(radius)} {lss}',
           'old horizontal_diffusion_step_filter (witness)', inp, None, 'old-nan')
